@@ -268,11 +268,38 @@ def capture_dtype_flow(rep, repo, mod):
                     f'which does not fit int32: NumPy 2 raises OverflowError in the pure-Python code path (c_to_s with sd > 0 whenever a capture falls into the sampling window)', node=bad[0])
 
 
+def _transfer_evaluated(f):
+    """WaveSim.s_ppo_to_ppi evaluated (Engine M, array stand-in) on a state array with distinguishable values, several sets of state-element rows and
+    two times, against the documented moves (s[0] <- s[2], s[1] <- time, s[2] <- s[8] on those rows, everything else unchanged). None: outside the subset."""
+    from kvstatic import minieval
+    from kvstatic.ndarr import NDArr
+    for rows in ([1], [0, 2, 3], [4, 1]):
+        for time in (0.0, 2.5):
+            old = [[[float(a * 100 + r * 10 + x) for x in range(3)] for r in range(5)] for a in range(11)]
+            want = [[list(r) for r in a] for a in old]
+            for r in rows:
+                want[0][r] = list(old[2][r])
+                want[1][r] = [time] * 3
+                want[2][r] = list(old[8][r])
+            me = minieval.NS(s=NDArr(old), ppio_s_locs=NDArr(rows))
+            try:
+                minieval.call_function(f, [me, time])
+            except ModelError:
+                return None
+            except (IndexError, TypeError, ValueError, AttributeError, KeyError):
+                return False
+            if not isinstance(me.s, NDArr) or me.s.d != want:
+                return False
+    return True
+
+
 def state_transfer(rep, repo, mod):
     rep.rule('C06.transfer', 's_ppo_to_ppi and ppo_to_ppi_gpu perform the same row moves: s[0] <- s[2], s[1] <- time, s[2] <- s[8]')
     f = mod.func('WaveSim.s_ppo_to_ppi')
     a = [cz(s) for s in body_no_doc(f)]
-    ok = a == ['self.s[0,self.ppio_s_locs]=self.s[2,self.ppio_s_locs]', 'self.s[1,self.ppio_s_locs]=time', 'self.s[2,self.ppio_s_locs]=self.s[8,self.ppio_s_locs]']
+    ok = _transfer_evaluated(f)
+    if ok is None:      # outside the evaluator subset: the statement template decides
+        ok = a == ['self.s[0,self.ppio_s_locs]=self.s[2,self.ppio_s_locs]', 'self.s[1,self.ppio_s_locs]=time', 'self.s[2,self.ppio_s_locs]=self.s[8,self.ppio_s_locs]']
     rep.ob('C06.transfer', 'cpu', ok)
     if not ok:
         rep.violate('C06.transfer', mod, f, body_no_doc(f)[0], 'WaveSim.s_ppo_to_ppi must move s[2] -> s[0], time -> s[1], s[8] -> s[2] on rows ppio_s_locs, in that order', node=f)
